@@ -1,4 +1,5 @@
 //verif:overlay immutable/zz_verif_prelude_sym.go
+//verif:whitebox
 package immutable
 
 import (
